@@ -1,4 +1,145 @@
 package colvet
 
-// ruleL7: cross-block shared state (DESIGN.md L7) — placeholder until implemented.
-func ruleL7(r *Report) {}
+import (
+	"fmt"
+	"sort"
+	"strings"
+
+	"golang.org/x/tools/go/ssa"
+)
+
+// ruleL7: cross-block shared state (DESIGN.md L7). The block latch serialises one block only.
+// Column state that is not selected by block — the slice header of chunks[T], the
+// whole-collection bitmaps of bool/index columns, the enum's string table — is shared by the
+// writers and readers of all blocks. For every such field the rule collects the contexts of all
+// header-writing sites (store to the field, Grow on it) and of all reading sites and requires
+// (L7.write) that the writers hold a common exclusive lock and (L7.read) that every reader holds
+// that lock too.
+func ruleL7(r *Report) {
+	L := r.Shared.Lockset()
+	hw := r.Rule("L7.write", "L", "every site that replaces the header of cross-block column state (chunks slice, whole-collection bitmap, enum table) holds a common exclusive lock", 4)
+	hr := r.Rule("L7.read", "L", "every reader of cross-block column state holds the lock under which that state's header is replaced (the block latch does not order accesses of different blocks)", 4)
+	type site struct {
+		ins  ssa.Instruction
+		s    *LSite
+		fn   string
+	}
+	type acc struct{ writes, reads []site }
+	fields := map[string]*acc{}
+	for ins, ss := range L.At {
+		fa, ok := ins.(*ssa.FieldAddr)
+		if !ok {
+			continue
+		}
+		fr, _ := fieldOf(fa)
+		k := storageField(fr)
+		if k != stHeader && k != stWhole {
+			continue
+		}
+		if fr.Struct == "column.columnKey" || fr.Struct == "column.columnSortIndex" {
+			continue // L6
+		}
+		name := fr.Struct + "." + fr.Field
+		write := false
+		for _, ref := range *fa.Referrers() {
+			switch x := ref.(type) {
+			case *ssa.Store:
+				if x.Addr == fa {
+					write = true
+				}
+			case *ssa.Call:
+				if sc := x.Call.StaticCallee(); sc != nil && len(x.Call.Args) > 0 && x.Call.Args[0] == ssa.Value(fa) && baseName(sc) == "Grow" {
+					write = true
+				}
+			}
+		}
+		a := fields[name]
+		if a == nil {
+			a = &acc{}
+			fields[name] = a
+		}
+		for i := range ss {
+			s := &ss[i]
+			if constructorCtx(s.Ctx) {
+				continue
+			}
+			// a column that is not yet registered is private to its creator
+			if pathHas(s.Ctx, "(*column.Collection).CreateColumn") && !pathHas(s.Ctx, "(*column.column).Grow") {
+				continue
+			}
+			st := site{ins, s, fnName(ins.Parent())}
+			if write {
+				a.writes = append(a.writes, st)
+			} else {
+				a.reads = append(a.reads, st)
+			}
+		}
+	}
+	names := make([]string, 0, len(fields))
+	for n := range fields {
+		names = append(names, n)
+	}
+	sort.Strings(names)
+	for _, n := range names {
+		a := fields[n]
+		if len(a.writes) == 0 {
+			hw.OK(n, "-", "never replaced after construction")
+			continue
+		}
+		// common exclusive locks of the writers
+		var common heldSet
+		for _, w := range a.writes {
+			ex := heldSet{}
+			for k := range w.s.Held {
+				if strings.HasSuffix(k, ":W") && !strings.HasPrefix(k, "latch") {
+					ex[lockBase(k)] = true
+				}
+			}
+			if common == nil {
+				common = ex
+			} else {
+				common = meetHeld(common, ex)
+			}
+		}
+		if len(common) == 0 {
+			w := a.writes[0]
+			for _, x := range a.writes {
+				hasEx := false
+				for k := range x.s.Held {
+					if strings.HasSuffix(k, ":W") && !strings.HasPrefix(k, "latch") {
+						hasEx = true
+					}
+				}
+				if !hasEx {
+					w = x
+				}
+			}
+			o := hw.Bad(n, r.P.InstrPos(w.ins), "the header of this cross-block state is replaced without a common exclusive lock")
+			setWitness(o, w.s)
+			continue
+		}
+		hw.OK(n, r.P.InstrPos(a.writes[0].ins), fmt.Sprintf("%d writing contexts hold {%s}", len(a.writes), common.key()))
+		// readers
+		var bad *site
+		nread := 0
+		for i := range a.reads {
+			rd := &a.reads[i]
+			nread++
+			ok := false
+			for l := range common {
+				if rd.s.Held.has(l) {
+					ok = true
+				}
+			}
+			if !ok && bad == nil {
+				bad = rd
+			}
+		}
+		if bad != nil {
+			o := hr.Bad(n, r.P.InstrPos(bad.ins), fmt.Sprintf("read in %s without any of the locks {%s} under which the header is replaced: a reader of one block races with a writer of another block that grows or appends", bad.fn, common.key()))
+			setWitness(o, bad.s)
+		} else {
+			hr.OK(n, "-", fmt.Sprintf("%d reading contexts hold a writer's lock", nread))
+		}
+	}
+}
